@@ -316,3 +316,9 @@ REGISTRY["C06"]["partial_clauses"] = ["float rounding (tower shift, source shift
                                       "source_shift_field, footprint_point_reflection; re-centring at phase level: recentre_phase)"]
 REGISTRY["C13"]["theorems"] += T("Proofs.C13b", "BLDFM.C13", ["pointMeasurement_eq_sum", "idealSource_binary", "idealSource_nonneg", "linspaceEnd_mirror", "idealSource_centred_symmetric"])
 REGISTRY["C02"]["theorems"] += T("Proofs.C02d", "BLDFM.C02", ["sum_window", "padded_sum_eq_user_sum", "point_measurement_reciprocity"])
+REGISTRY["C07"]["theorems"] += T("Proofs.C07f", "BLDFM.C07", ["denOK_transpose", "mirrorY_is_conjugate", "mirrorY_field"])
+REGISTRY["C07"]["partial_clauses"] = ["float rounding",
+    "axis swap, length similarity, velocity similarity are theorems at FIELD level through the whole model pipeline; the x-mirror for every non-Nyquist component "
+    "(mirrorX_component) and at field level when every slot has a partner (mirrorX_field; mirrorY_field = transpose . mirrorX . transpose), dispersion mode with the "
+    "measurement point at the origin; mirrored footprints (mirrored tower) by the oracle",
+    "velocity similarity needs the background divided by the same factor (a non-zero background is not scaled by the flow) - stated so in the theorem"]
